@@ -52,8 +52,8 @@ var data = map[string]interface{}{
 	"xs": []interface{}{"e0", "e1", "e2", "e3"},
 	// operands reached through an index, a key, a field, a field of an element: the reference knows a field path as a
 	// plain name ("st.N"), plush receives the struct (plushExtra)
-	"pa": []interface{}{7, 2, 1.5, "a", true, false, 0.5, "b2"},
-	"mp": &model.OrderedMap{Keys: []interface{}{"k", "s", "b"}, Vals: map[interface{}]interface{}{"k": 7, "s": "a", "b": false}},
+	"pa":   []interface{}{7, 2, 1.5, "a", true, false, 0.5, "b2"},
+	"mp":   &model.OrderedMap{Keys: []interface{}{"k", "s", "b"}, Vals: map[interface{}]interface{}{"k": 7, "s": "a", "b": false}},
 	"st.N": 7, "st.M": 2, "st.F": 1.5, "st.S": "a", "st.B": true, "st.In.N": 1, "ps[1].N": 2, "ps[0].S": "b2", "ps[0].B": false,
 }
 
@@ -368,7 +368,7 @@ type style struct {
 
 var styles = []style{
 	{Name: "glued"},
-	{Name: "glued-right", Before: " "},          // 7 -2
+	{Name: "glued-right", Before: " "},           // 7 -2
 	{Name: "glued-left", After: " ", Zero: true}, // 7- 2
 	{Name: "wide", Before: "  ", After: "\t", Pad: true},
 	{Name: "lines", Before: "\n", After: "\n", BQuote: true},
